@@ -60,6 +60,9 @@ pub enum SS {
     Bang,
     /// a user nonterminal literally named `error`
     ErrNt,
+    /// the bare terminal `ID` declared in the extern block (a macro parameter of the library
+    /// has the same name)
+    Bare,
 }
 
 #[derive(Clone, Debug, PartialEq)]
@@ -185,6 +188,21 @@ fn library() -> Vec<MDef> {
         },
         // 5: body instantiates another macro with the parameter twice
         MDef { name: "Outer", params: &["X"], ty: Ty::V, alts: vec![MAlt { cond: None, body: vec![(Bind::Name("p"), SS::Mac(1, vec![p(0), p(0)]))], action: "V::n(64, vec![p.v()])" }] },
+        // 6: conditional and unconditional alternatives interleaved
+        MDef {
+            name: "Mix",
+            params: &["X"],
+            ty: Ty::V,
+            alts: vec![
+                MAlt { cond: Some((0, Op::Eq, "a")), body: vec![(Bind::Name("x"), p(0)), (Bind::No, SS::T(2))], action: "V::n(70, vec![x.v()])" },
+                MAlt { cond: None, body: vec![(Bind::No, SS::T(3)), (Bind::Name("x"), p(0))], action: "V::n(71, vec![x.v()])" },
+                MAlt { cond: Some((0, Op::Ne, "a")), body: vec![(Bind::Name("x"), p(0)), (Bind::No, SS::T(3)), (Bind::No, SS::T(3))], action: "V::n(72, vec![x.v()])" },
+                MAlt { cond: None, body: vec![(Bind::No, SS::T(2)), (Bind::No, SS::T(2)), (Bind::Name("x"), p(0))], action: "V::n(73, vec![x.v()])" },
+            ],
+        },
+        // 7: the parameter has the name of a bare terminal of the extern block: inside the body the
+        // name denotes the parameter
+        MDef { name: "Shadow", params: &["ID"], ty: Ty::V, alts: vec![MAlt { cond: None, body: vec![(Bind::No, SS::T(2)), (Bind::Name("x"), p(0)), (Bind::No, SS::T(2))], action: "V::n(74, vec![x.v()])" }] },
     ]
 }
 
@@ -206,6 +224,7 @@ fn show(s: &SS, lib: &[MDef], params: &[&str]) -> String {
         SS::A => "A".into(),
         SS::Bang => "!".into(),
         SS::ErrNt => "error".into(),
+        SS::Bare => "ID".into(),
         SS::Star(x) => format!("{}*", show(x, lib, params)),
         SS::Plus(x) => format!("{}+", show(x, lib, params)),
         SS::Opt(x) => format!("{}?", show(x, lib, params)),
@@ -280,6 +299,7 @@ impl<'a> Desugar<'a> {
             SS::T(t) => (format!("\"{}\"", TNAMES[*t as usize]), Sym::T(*t), Ty::Tok),
             SS::A => ("A".to_string(), Sym::N(1), Ty::V),
             SS::ErrNt => ("error".to_string(), Sym::N(2), Ty::V),
+            SS::Bare => ("ID".to_string(), Sym::T(5), Ty::Tok),
             SS::Bang => ("!".to_string(), Sym::Err, Ty::Rec),
             SS::Par(_) => panic!("parameter outside a macro body"),
             SS::Plus(x) => {
@@ -410,7 +430,7 @@ impl SG {
                 s.push_str("#[recursive_ascent]\n");
             }
             s.push_str("grammar;\n");
-            s.push_str(&crate::gram::extern_block(5));
+            s.push_str("extern {\n    type Location = usize;\n    type Error = String;\n    enum Tok {\n        \"a\" => Tok::T0,\n        \"b\" => Tok::T1,\n        \"c\" => Tok::T2,\n        \"d\" => Tok::T3,\n        \"e\" => Tok::T4,\n        ID => Tok::T5,\n    }\n}\n");
             s.push_str("A: V = { \"d\" => V::n(50, vec![]) };\n");
             if uses_err {
                 s.push_str("error: V = { \"d\" \"d\" => V::n(51, vec![]) };\n");
@@ -487,7 +507,7 @@ impl SG {
         header(&mut des);
         des.push_str(&d.text);
         des.push_str(&s_text);
-        let cfg = Cfg { nts: d.cfg.len(), terms: 5, alts: d.cfg, pubs: vec![0] };
+        let cfg = Cfg { nts: d.cfg.len(), terms: 6, alts: d.cfg, pubs: vec![0] };
         Rendered { sugared: sug, desugared: des, cfg, dropped: d.dropped, instances: d.instances, bad: d.bad }
     }
 }
@@ -541,6 +561,14 @@ fn menu(thorough: bool) -> Vec<SS> {
         m.push(SS::Mac(2, vec![a.clone()]));
     }
     m.push(SS::Mac(2, vec![SS::A])); // condition on a non-literal: diagnostic expected
+    for a in &lit {
+        m.push(SS::Mac(6, vec![a.clone()]));
+    }
+    for a in [SS::T(0), SS::A, SS::Bare, SS::Star(b(&SS::T(1)))] {
+        m.push(SS::Mac(7, vec![a.clone()]));
+    }
+    m.push(SS::Bare);
+    m.push(SS::Star(b(&SS::Bare)));
     for x in &atoms {
         for y in &atoms {
             m.push(SS::Mac(1, vec![x.clone(), y.clone()]));
@@ -736,7 +764,7 @@ fn explore_one(ctx: &mut Ctx, dir: &std::path::Path, lib: &[MDef], fam: &str, sg
         }
     };
     let t = &lifted.parsers[0];
-    let nk = 5usize;
+    let nk = 6usize;
     let tok_idx = implt::extern_tok_idx(t, nk);
     let stats = implt::new_stats(false);
     let lang = Lang::new(&r.cfg, n + 1);
